@@ -12,6 +12,7 @@ From Borno Require Import Cli.
 From Borno Require Import EvalMeta.
 From Borno Require Import EvalHoare.
 From Borno Require Import EvalOrder.
+From Borno Require Import ScenarioExamples.
 
 (** if/else runs exactly one arm (or none), chosen by the truthiness of the condition *)
 Theorem C05_if_rule :
@@ -229,3 +230,9 @@ Theorem C05_truthy_spec :
          v = VNil \/ v = VBool false \/ (exists x : f64, v = VNum x /\ f_is_zero x = true) \/ v = VStr [].
 Proof. exact (@truthy_spec). Qed.
 Print Assumptions C05_truthy_spec.
+
+(** break and continue in a for loop, evaluated inside the kernel from source text (transcript = the real interpreter's) *)
+Theorem C05_scenario_break_continue :
+  transcript src_break_continue = Some ([[48]; [50]; [51]; [100; 111; 110; 101]], 0).
+Proof. exact (@scenario_break_continue). Qed.
+Print Assumptions C05_scenario_break_continue.
